@@ -172,8 +172,12 @@ func (c *ChangesCursor) Next() error {
 			c.eof = true
 			return nil
 		}
-		if de.NewValue != nil {
-			c.currentRow = de.NewValue.(*v1proto.Row)
+		if err != nil {
+			return err
+		}
+		// rows that are deleted in the "to" version are not part of it
+		if row, ok := de.NewValue.(*v1proto.Row); ok && row != nil && !row.Deleted {
+			c.currentRow = row
 			c.currentKey = de.Key.(*s3db.Key)
 			return nil
 		}
